@@ -162,7 +162,11 @@ def run_model_comparison(ctx, jobs, issues, delta):
         keys.append(name)
     if not exprs:
         return 0
-    nfiles = 3 if ctx.tier == "quick" else 16
+    # NB: keep the number of files strictly below vlib.NCPU: coq_eval starts the
+    # coqc processes with piped stdout and waits for a free slot before it reads
+    # any pipe, so >= NCPU files with > 64 KB of output each dead-lock until the timeout
+    import vlib as _vlib
+    nfiles = 3 if ctx.tier == "quick" else max(2, min(12, _vlib.NCPU - 2))
     vals = ctx.coq_eval("model", PRE, exprs, chunk=max(1, (len(exprs) + nfiles - 1) // nfiles), timeout=1500)
     nrec = 0
     for name, val in zip(keys, vals):
